@@ -28,6 +28,8 @@ def run_property(prop, tier, root=None, quiet=False):
             print("ANALYSIS-ERROR property=%s no rules implemented" % prop)
             return 2
         mod.run(chk, ctx)
+        from sa.rules import reviewed
+        reviewed.run(chk, ctx, prop)
         if tier == "thorough":
             if hasattr(mod, "thorough"):
                 mod.thorough(chk, ctx)
